@@ -72,6 +72,8 @@ theorem handlePieceWriteDone_life_running (m : M) (w : WriteJob) (e : Bool) (h :
   dsimp only
   split
   · exact h0.congrR hr0 (by lframe)
+  split
+  · exact h0
   · split
     · simp only [onSt_fst]
       exact stop_life' _ _ hr0 (by simpa using h.leaked)
@@ -170,13 +172,15 @@ theorem pwdFinish_life_quiet (m : M) (h : Life m.1) (hi : m.1.info = true) (hq :
     exact h1.congr (by lframe)
   · exact h1
 
-/-- `handlePieceWriteDone` on a stopped or stopping torrent (a write that was in flight). -/
+/-- `handlePieceWriteDone` on a stopped or stopping torrent (a write that was in flight): nothing is loaded, the
+result is stale and ignored (fix C04-F9). -/
 theorem handlePieceWriteDone_life_quiet (m : M) (w : WriteJob) (e : Bool) (h : Life m.1)
     (hnr : m.1.errC = false ∨ m.1.stopAnn = true) : Life (handlePieceWriteDone m w e).1 := by
   have hq := h.quiet hnr
   rw [handlePieceWriteDone_eq]
   have h0 : Life (pwdReset m w).1 := h.congr (by lframe)
   have hq0 : Quiet (pwdReset m w).1 := ⟨by simpa using hnr, by simpa using hq.peers, by simpa using hq.dls⟩
+  have hl0 : (pwdReset m w).1.loaded = false := by simpa using (h.idle hnr).2.2.1
   dsimp only
   split
   · unfold pwdBan
@@ -185,26 +189,8 @@ theorem handlePieceWriteDone_life_quiet (m : M) (w : WriteJob) (e : Bool) (h : L
     rw [closePeer_of_nil _ _ hq0.peers]
     exact h0.congr (by lframe)
   · split
-    · simp only [onSt_fst]
-      rw [stop_of_not_running _ _ h0.sa hq0.nr]
-      exact h0
-    · have h1 : Life (pwdDone (pwdReset m w) w).1 := h0.congr (by lframe)
-      have hq1 : Quiet (pwdDone (pwdReset m w) w).1 :=
-        ⟨by simpa using hnr, by simpa using hq.peers, by simpa using hq.dls⟩
-      split
-      · simp only [onSt_fst]; exact h1.congr (by lframe)
-      · next b hb =>
-        have hinfo : (pwdDone (pwdReset m w) w).1.info = true := by
-          cases hi : (pwdDone (pwdReset m w) w).1.info
-          · have := (h1.ni hi).2.2.2.2; rw [hb] at this; cases this
-          · rfl
-        unfold pwdOk
-        have h2 : Life (pwdSet (pwdDone (pwdReset m w) w) w b).1 := by
-          apply h1.congrI hinfo <;> first | rfl | (simp; done)
-        have hq2 : Quiet (pwdSet (pwdDone (pwdReset m w) w) w b).1 :=
-          ⟨by simpa using hnr, by simpa using hq.peers, by simpa using hq.dls⟩
-        rw [pwdOthers_of_nil _ _ hq2.dls, pwdHaves_of_nil _ _ hq2.peers]
-        exact pwdFinish_life_quiet _ h2 (by simpa using hinfo) hq2
+    · exact h0
+    · next hst => rw [hl0] at hst; simp at hst
 
 theorem handlePieceWriteDone_life (m : M) (w : WriteJob) (e : Bool) (h : Life m.1) :
     Life (handlePieceWriteDone m w e).1 := by
@@ -221,6 +207,7 @@ theorem writerRun_life (m : M) (w : WriteJob) (h : Life m.1) : Life (writerRun m
   all_goals first
     | exact handlePieceWriteDone_life _ _ _ h
     | exact handlePieceWriteDone_life _ _ _ (h.congr (by lframe))
+    | exact h.congr (by lframe)
 
 /-! ### workers, handle, step -/
 
@@ -247,11 +234,11 @@ theorem runWorkers_life (fuel : Nat) (m : M) (h : Life m.1) : Life (runWorkers f
           · next hv =>
             simp only [Bool.and_eq_true] at hv
             exact ih _ (handleVerificationDone_life m h hv.1)
-          · split
-            · split
-              · exact ih _ (writerRun_life m _ h)
-              · exact h
-            · exact h
+          · repeat' split
+            all_goals first
+              | exact h
+              | exact ih _ (handlePieceWriteDone_life m _ _ h)
+              | exact ih _ (writerRun_life m _ h)
 
 theorem mutate_life (s : St) (f : Option Nat) (how : Mut) (h : Life s) (he : s.errC = false) :
     Life (mutate s f how) := by
